@@ -897,6 +897,9 @@ class Interp:
             c = self.choose(2)
             t = (c == 0)
             self.conds.append((ast.unparse(test), t))
+            hook = getattr(self.dom, 'on_branch', None)
+            if hook is not None:
+                hook(test, t, frame)
         return t
 
     def truth(self, v):
